@@ -23,7 +23,8 @@ RULE = ("(a) request streams from a real client: generated mixes of synchronous,
         "raw request with undecodable arguments. distinct by case hash.")
 ASSUMPTIONS = ["the ledger is decoded with vlib.refcodec (independent of rpyc)", "HANDLE_CLOSE is not part of the streams"]
 
-OUTCOMES = ["value", "value", "ref", "exc", "custom", "unboxable", "unencodable", "nested", "nested-exc", "none"]
+OUTCOMES = ["value", "value", "ref", "exc", "custom", "unboxable", "unencodable", "nested", "nested-exc", "none", "sysexit",
+            "genexit"]
 
 
 class Hostile(object):
@@ -52,6 +53,10 @@ def make_service(counters):
                 raise ValueError(token)
             if outcome == "custom":
                 raise MyErr(token)
+            if outcome == "sysexit":
+                raise SystemExit(token)
+            if outcome == "genexit":
+                raise GeneratorExit(token)
             if outcome == "unboxable":
                 return Hostile()
             if outcome == "unencodable":
@@ -164,6 +169,10 @@ def check_stream(case, rec):
                     ok = got[0] == "raised" and isinstance(got[1], ValueError) and got[1].args == (tok,)
                 elif outcome == "custom":
                     ok = got[0] == "raised" and type(got[1]).__name__.endswith("MyErr") and got[1].args == (tok,)
+                elif outcome == "sysexit":
+                    ok = got[0] == "raised" and isinstance(got[1], SystemExit) and got[1].args == (tok,)
+                elif outcome == "genexit":
+                    ok = got[0] == "raised" and isinstance(got[1], GeneratorExit) and got[1].args == (tok,)
                 elif outcome in ("unboxable", "unencodable"):
                     ok = got[0] == "raised" and isinstance(got[1], Exception) and not isinstance(got[1], (EOFError, TimeoutError))
                 elif outcome == "nested":
@@ -346,6 +355,77 @@ def check_raw(case, rec):
     return [Failure(cl, key, case, det) for cl, key, det in problems[:3]]
 
 
+# ---- (c) a real client against a peer that duplicates / invents responses -------------------------------------------
+def check_dupes(case, rec):
+    import rpyc
+    from rpyc.core import consts
+    from rpyc.core.channel import Channel
+    plan_ = case["plan"]
+    rec.case(case, any(a[0] != "answer" for a in plan_), ["dupes:" + a[0] for a in plan_])
+    problems = []
+    k = sk.Kernel()
+    with k.installed():
+        link = sk.Link(k)
+        conn = rpyc.VoidService()._connect(Channel(link.a), {})
+        peer = RawPeer(link.b, strict=False)
+        n = case["n"]
+
+        def peer_task():
+            seqs = []
+            for _ in range(n):
+                m = peer.recv_msg()
+                seqs.append((m[1], m[2][1][1][0]))
+            for act in plan_:
+                seq, tok = seqs[act[1] % n]
+                if act[0] == "answer":
+                    peer.reply(seq, box_value(tok))
+                elif act[0] == "dup-other-value":
+                    peer.reply(seq, box_value(tok))
+                    peer.reply(seq, box_value("intruder"))
+                elif act[0] == "dup-exception":
+                    peer.reply(seq, box_value(tok))
+                    peer.exception(seq, (("builtins", "KeyError"), ("intruder",), (), "tb"))
+                elif act[0] == "unknown-seq":
+                    peer.reply(987654 + act[1], box_value("intruder"))
+            for seq, tok in seqs:           # whatever is still unanswered gets its answer (a repeat is a duplicate)
+                peer.reply(seq, box_value(tok))
+
+        def driver():
+            rs = [conn.async_request(consts.HANDLE_PING, "tok%d" % i, timeout=20) for i in range(n)]
+            for i, r in enumerate(rs):
+                try:
+                    v = r.value
+                except sk.KernelAbort:
+                    raise
+                except BaseException as ex:
+                    v = "%s:%s" % (type(ex).__name__, ex)
+                if v != "tok%d" % i:
+                    problems.append(("foreign-response-delivered", "request completed with %s" %
+                                     ("another response" if "intruder" in str(v) else "an error"), [i, str(v)[:60]]))
+            conn.poll_all(0.5)
+            for i, r in enumerate(rs):
+                try:
+                    v = r.value
+                except BaseException as ex:
+                    v = repr(ex)
+                if v != "tok%d" % i:
+                    problems.append(("foreign-response-delivered", "a later duplicate replaced the outcome", [i, str(v)[:60]]))
+        k.spawn(peer_task, name="peer", daemon=True)
+        t = k.spawn(driver, name="driver")
+        k.run()
+        if t.exc is not None:
+            problems.append(("driver-raised", type(t.exc).__name__, t.exc_tb[-300:]))
+        if k.deadlock:
+            problems.append(("deadlock", "dupes", k.deadlock))
+        conn._closed = True
+    return [Failure(cl, key, case, det) for cl, key, det in problems[:3]]
+
+
+def dupe_cases():
+    act = st.tuples(st.sampled_from(["answer", "answer", "dup-other-value", "dup-exception", "unknown-seq"]), st.integers(0, 5)).map(list)
+    return st.fixed_dictionaries({"part": st.just("dupes"), "n": st.integers(1, 5), "plan": st.lists(act, max_size=8)})
+
+
 def raw_cases():
     r = st.tuples(st.sampled_from(RAW_KINDS), st.integers(0, len(SEQS) - 1)).map(list)
     return st.fixed_dictionaries({"part": st.just("raw"), "reqs": st.lists(r, min_size=1, max_size=8)})
@@ -356,15 +436,18 @@ def plan(tier, scale):
         ns, nr, sh = 70, 120, 8
     else:
         ns, nr, sh = 2500, 3000, 12
-    return [{"part": "stream", "n": int(ns * scale)} for _ in range(sh)] + [{"part": "raw", "n": int(nr * scale)} for _ in range(4)]
+    return ([{"part": "stream", "n": int(ns * scale)} for _ in range(sh)] + [{"part": "raw", "n": int(nr * scale)} for _ in range(4)]
+            + [{"part": "dupes", "n": int(nr * scale)} for _ in range(2)])
 
 
 def run_shard(desc, seed, rec, tier):
     if desc["part"] == "stream":
         drive(rec, stream_cases(), lambda c: check_stream(c, rec), desc["n"], seed)
+    elif desc["part"] == "dupes":
+        drive(rec, dupe_cases(), lambda c: check_dupes(c, rec), desc["n"], seed)
     else:
         drive(rec, raw_cases(), lambda c: check_raw(c, rec), desc["n"], seed)
 
 
 def replay(case, rec):
-    return check_stream(case, rec) if case["part"] == "stream" else check_raw(case, rec)
+    return {"stream": check_stream, "raw": check_raw, "dupes": check_dupes}[case["part"]](case, rec)
